@@ -116,3 +116,70 @@ func handshakeFacts(hl *pkgFiles) string {
 	b.WriteString("def handshakeValidExpr : String := " + leanStr(valid) + "\n\n")
 	return b.String()
 }
+
+// EncodeString (hotline/user.go): the statements of the body with the parameter and the locals renamed by
+// position (p0, v0, v1, … in order of declaration), so that renaming an identifier leaves the fact unchanged.
+func encodeStringShape(hl *pkgFiles) string {
+	var stmts []string
+	if fd := findFunc(hl, "", "EncodeString"); fd != nil && fd.Body != nil {
+		ren := map[string]string{}
+		np := 0
+		for _, f := range fd.Type.Params.List {
+			for _, n := range f.Names {
+				ren[n.Name] = fmt.Sprintf("p%d", np)
+				np++
+			}
+		}
+		nv := 0
+		ast.Inspect(fd.Body, func(n ast.Node) bool {
+			if as, ok := n.(*ast.AssignStmt); ok && as.Tok == token.DEFINE {
+				for _, l := range as.Lhs {
+					if id, ok := l.(*ast.Ident); ok && id.Name != "_" {
+						if _, seen := ren[id.Name]; !seen {
+							ren[id.Name] = fmt.Sprintf("v%d", nv)
+							nv++
+						}
+					}
+				}
+			}
+			return true
+		})
+		// rename on the printed text of each statement, identifier by identifier (a selector's field is not a local)
+		for _, st := range fd.Body.List {
+			var sel = map[*ast.Ident]bool{}
+			ast.Inspect(st, func(n ast.Node) bool {
+				if se, ok := n.(*ast.SelectorExpr); ok {
+					sel[se.Sel] = true
+				}
+				return true
+			})
+			var saved []struct {
+				id  *ast.Ident
+				old string
+			}
+			ast.Inspect(st, func(n ast.Node) bool {
+				if id, ok := n.(*ast.Ident); ok && !sel[id] {
+					if r, ok := ren[id.Name]; ok {
+						saved = append(saved, struct {
+							id  *ast.Ident
+							old string
+						}{id, id.Name})
+						id.Name = r
+					}
+				}
+				return true
+			})
+			stmts = append(stmts, strings.Join(strings.Fields(src(st)), " "))
+			for _, s := range saved {
+				s.id.Name = s.old
+			}
+		}
+		stmts = append([]string{"func(" + src(fd.Type.Params.List[0].Type) + ") " + src(fd.Type.Results.List[0].Type)}, stmts...)
+	}
+	var q []string
+	for _, s := range stmts {
+		q = append(q, leanStr(s))
+	}
+	return "/-- `EncodeString` (hotline/user.go): signature, then the statements of its body, identifiers renamed by position -/\n" +
+		"def encodeStringShape : List String := [" + strings.Join(q, ",\n  ") + "]\n\n"
+}
